@@ -232,7 +232,8 @@ def check_item(item):
     if item["part"] == "polytomy":
         return check_polytomy(item)
     n, ti, seed, part = item["n"], item["top"], item["seed"], item["part"]
-    labels = [f"t{i}" for i in range(n)]
+    # "numeric": the taxa are called 1..n (names that look like positions in the taxa list)
+    labels = [str(i + 1) for i in range(n)] if item.get("numeric") else [f"t{i}" for i in range(n)]
     top = en.rooted_topologies(labels)[ti]
     data = {l: DATA[i] for i, l in enumerate(labels)}
     ages = {l: (0.0 if i % 2 == 0 else 0.4 + 0.1 * i) for i, l in enumerate(labels)}
@@ -349,6 +350,8 @@ def items(tier, seed):
                 if tier == "quick" and n == 5 and part in ("taxa_seq", "children"):
                     it["lean"] = True
                 out.append(it)
+    for ti in range(en.n_rooted(4)):
+        out.append({"n": 4, "top": ti, "seed": seed, "part": "taxa_seq", "numeric": True, "lean": True})
     for n, trees in POLYTOMIES.items():
         for k in range(len(trees)):
             out.append({"n": n, "top": k, "seed": seed, "part": "polytomy"})
